@@ -283,7 +283,7 @@ class Model:
       self.write(st, ip, dst, w, v)
 
   def _fix(self, st, units):
-    for sweep in range(len(units) + 3):
+    for sweep in range(len(units) * 3 + 8):
       before = dict(st)
       for u in units:
         self.run_unit(u, st)
